@@ -417,6 +417,15 @@ func checkC07(c *Ctx) {
 			add("control", "x = 1; g = func(a, ..) {[a, ..]}; f = func(n) {for i = n {"+u+"}}; f(2)")
 		}
 	}
+	// 2d. introspection (info) evaluated at every call depth and closure shape, its parts printed, compared, indexed, serialised
+	for _, shape := range []string{"U", "g = func() {U}; g()", "g = func() {U}; f = func() {g()}; f()", "g = func() {U}; f = func() {g()}; h = func() {f()}; h()",
+		"mk = func() {func() {func() {U}}}; mk()()()", "mk = func() {func() {U}}; f = func(k) {k()}; f(mk())", "f = func(n) {if n == 0 {U} else {f(n - 1)}}; f(3)",
+		"for i = 2 {g = func() {U}; g()}", "f = func(a, b) {for i = a {g = func() {U}; g()}}; f(2, 3)", "m = macro(x) {quote(unquote(x))}; f = func() {m(U)}; f()"} {
+		for _, use := range []string{"info", "info.stack", "info.globals", "println(info.stack)", "info.stack == info.stack", "info == info", "len(info.stack)", "info.stack[0]", "info.stack[-1]",
+			"json(info.stack)", "str(info)", "first(info.stack)", "rest(info.stack)", "for s = info.stack {println(s)}", "keys(info)", "info.stack + info.stack", "x = info; x.stack = 1; x", "[info.stack] == [info.stack]", "{info.stack: 1}"} {
+			add("info", strings.ReplaceAll(shape, "U", use))
+		}
+	}
 	// 3. wild untyped programs
 	nw := c.Pick(3000, 60000)
 	for i := 0; i < nw; i++ {
